@@ -256,6 +256,19 @@ class Runner:
             if out and not fails and m is not None and (p.pid % self.witness_every == 0):
                 for expr, symval in out.get('observe', []):
                     self._witness(job_label, m, inputs, expr, symval)
+            if out and out.get('witness_script') and m is not None and not fails and (p.pid % self.witness_every == 0):
+                script = out['witness_script'].format(**{k: repr(v) for k, v in inputs.items()})
+                code, wout = self.plain.run_script(script)
+                if code == 0:
+                    res.witness_replays += 1
+                elif code == 1:
+                    # the witness history itself violates a clause on the plain library (concrete, reproduced)
+                    res.obligations += 1
+                    res.records.append({'label': 'witness-history', 'func': self.func, 'kind': 'witness-history', 'args_text': wout.strip()[-400:],
+                                        'expected': 'the rules hold along the history that builds the witness pre-state', 'observed': wout.strip()[-400:],
+                                        'script': script, 'job': job_label})
+                else:
+                    res.inconclusive.append('%s: witness pre-state could not be rebuilt through the public API as modelled [exit %s] %s' % (job_label, code, wout.strip()[-300:]))
             # obligations
             for ob in p.obligations:
                 res.obligations += 1
@@ -273,7 +286,7 @@ class Runner:
                     for attempt in range(60):
                         ins = {k: conc(model, v) for k, v in sym_inputs.items()}
                         verdict = self._counterexample(job_label, ob.label, ins, str(ob.info or ''), quiet=(eng.float_mode == 'R'))
-                        if verdict == 'violation':
+                        if verdict in ('violation', 'inconclusive'):
                             break
                         if verdict == 'spurious':
                             # reals-with-rounding over-approximates doubles: a model that does not reproduce is excluded and
